@@ -42,6 +42,44 @@ theorem leBytes_zero_all (len : Nat) : ∀ b ∈ leBytes len 0, b = 0 := by
     · rfl
     · exact ih b hb
 
+/-! ## the flag bit above a coordinate -/
+
+theorem topBit_double (len : Nat) (h : 0 < len) : 2 * topBit len = 256 ^ len := by
+  have h8 : 8 * len = (8 * len - 1) + 1 := by omega
+  have : (256 : Nat) ^ len = 2 ^ (8 * len) := by
+    rw [show (256 : Nat) = 2 ^ 8 by norm_num, ← pow_mul]
+  rw [this, topBit]
+  conv_rhs => rw [h8, pow_succ]
+  ring
+
+theorem topBit_pos (len : Nat) : 0 < topBit len := by
+  unfold topBit; positivity
+
+/-- a coordinate `x < t` with one flag bit `s` on top: both can be read back -/
+theorem flag_split (t x s : Nat) (hx : x < t) (hs : s < 2) :
+    (x + t * s) / t % 2 = s ∧ (x + t * s) % t = x := by
+  have ht : 0 < t := by omega
+  constructor
+  · rw [Nat.add_mul_div_left _ _ ht, Nat.div_eq_of_lt hx, Nat.zero_add, Nat.mod_eq_of_lt hs]
+  · rw [Nat.add_mul_mod_self_left, Nat.mod_eq_of_lt hx]
+
+theorem flag_lt (t x s : Nat) (hx : x < t) (hs : s < 2) : x + t * s < 2 * t := by
+  have : t * s ≤ t * 1 := Nat.mul_le_mul_left t (by omega)
+  omega
+
+/-- the coordinate-with-flag word fits the byte string and splits back -/
+theorem leNat_leBytes_flag (len x s : Nat) (hlen : 0 < len) (hx : x < topBit len) (hs : s < 2) :
+    leNat (leBytes len (x + topBit len * s)) = x + topBit len * s := by
+  apply leNat_leBytes
+  have := flag_lt (topBit len) x s hx hs
+  rw [topBit_double len hlen] at this
+  exact this
+
+theorem leNat_append (xs ys : List Nat) : leNat (xs ++ ys) = leNat xs + 256 ^ xs.length * leNat ys := by
+  induction xs with
+  | nil => simp [leNat]
+  | cons x xs ih => simp only [List.cons_append, leNat, ih, List.length_cons, pow_succ]; ring
+
 /-! ## `powMod`: square-and-multiply with explicit fuel, evaluable by the kernel -/
 
 def powModAux (m : Nat) : Nat → Nat → Nat → Nat → Nat
